@@ -54,6 +54,18 @@ def equal(a, b):
 def aliens(expr, vocabulary):
   """Names of free symbols and of uninterpreted functions in `expr` that are not in `vocabulary` (a set of names)."""
   out = {str(s_) for s_ in expr.free_symbols if str(s_) not in vocabulary}
+  # an opaque symbol whose text is itself an expression over known names (round(float(flevel), 4)) is a closed term
+  from mmsa import au
+  fields = {v[5:].split('.')[0].split('[')[0].split('(')[0] for v in vocabulary if v.startswith('self.')}
+  for name in list(out):
+    try:
+      e_ = ast.parse(name, mode='eval').body
+    except SyntaxError:
+      continue
+    if isinstance(e_, (ast.Name, ast.Attribute)):
+      continue            # a plain unresolved local or field stays alien
+    if not au.aliens(e_, vocabulary, fields=fields):
+      out.discard(name)
   try:
     from sympy.core.function import AppliedUndef
     out |= {a.func.__name__ for a in expr.atoms(AppliedUndef) if a.func.__name__ not in vocabulary}
